@@ -162,9 +162,15 @@ def _r2_r3(ctx):
     if cand:
         cd = [a for a in C.assigns_to(gi.node, cand)] if cand.isidentifier() else []
         cexpr = cd[0].value if cd else ast.parse(cand, mode="eval").body      # a local, or the expression used in place
-        b = pm.match('self._data["instruction_forms_dict"].get(M_k, [])', cexpr)
-        ctx.check(b is not None, "R2", "candidates are the name index's list (unsorted, unsliced)", gi.where(),
-                  "candidate list is not taken as-is from the name index", gi.qname, "candidate source")
+        cexpr = C.flow_of(gi).subst(cexpr)          # the index held in a local
+        b = None
+        for pat in ('self._data["instruction_forms_dict"].get(M_k, M_dflt)', 'self._data["instruction_forms_dict"].get(M_k)',
+                    'self._data["instruction_forms_dict"][M_k]'):
+            b = b or pm.match(pat, cexpr)
+        dflt_ok = b is not None and ("M_dflt" not in b or U(b["M_dflt"]) in ("[]", "()", "list()", "tuple()"))
+        reordered = isinstance(cexpr, ast.Call) and (pm.call_name(cexpr) or "").split(".")[-1] in ("sorted", "reversed") or isinstance(cexpr, ast.Subscript) and isinstance(cexpr.slice, ast.Slice)
+        ctx.judge(b is not None and dflt_ok, b is not None or reordered, "R2", "candidates are the name index's list (unsorted, unsliced)", gi.where(),
+                  "candidate list is not taken as-is from the name index (%s)" % U(cexpr)[:100], gi.qname, "candidate source")
         # R3 key folding
         lk = U(b["M_k"]) if b else ""
         fold_lookup = ".upper()" if lk.endswith(".upper()") else ".lower()" if lk.endswith(".lower()") else None
@@ -338,6 +344,10 @@ def _r6(ctx):
         if eq:
             ctx.ok("R6", "%s == decision table (%d atoms, %d BDD nodes)" % (name, info["atoms_code"], info["bdd_nodes"]),
                    f.where())
+        elif info.get("undetermined"):
+            ctx.unknown("R6", "%s vs decision table" % name, f.where(),
+                        "%s contains conditions the comparison cannot interpret (%s); for some value of them it agrees with its "
+                        "decision table" % (name, info.get("opaque_atoms", info["only_in_code"])[:3]))
         else:
             w = info.get("witness", {})
             ctx.bad("R6", "%s vs decision table" % name, f.where(),
